@@ -167,7 +167,8 @@ func parse(ctx context.Context, fileDesc *desc.FileDescriptor, mode meta.ParseSe
 }
 
 func parseMessage(ctx context.Context, msgDesc *desc.MessageDescriptor, cache compilingCache, recursionDepth int, opts Options, parseTarget ParseTarget) (*TypeDescriptor, error) {
-	if tycache, ok := cache[msgDesc.GetName()]; ok && tycache.parseTarget == parseTarget {
+	// the cache must be keyed by the fully-qualified name: different message types may share a simple name
+	if tycache, ok := cache[msgDesc.GetFullyQualifiedName()]; ok && tycache.parseTarget == parseTarget {
 		return tycache.desc, nil
 	}
 
@@ -186,7 +187,7 @@ func parseMessage(ctx context.Context, msgDesc *desc.MessageDescriptor, cache co
 		msg:  md,
 	}
 
-	cache[ty.name] = &compilingInstance{
+	cache[msgDesc.GetFullyQualifiedName()] = &compilingInstance{
 		desc:        ty,
 		opts:        opts,
 		parseTarget: parseTarget,
